@@ -106,7 +106,7 @@ func TestC04(t *testing.T) {
 	rec.SetJournalAll(true)
 	rec.Assume("ground truth of idempotency from cqlgen's derivation; prepared ids are what the proxy itself returned",
 		"a request is 'received' when the fake backend has read the frame; connection loss is only scripted after that point")
-	runProp(t, rec, "storm", perShard(evid.Pick(1500, 60000)), func(rt *rapid.T) stormCase {
+	runProp(t, rec, "storm", perShard(evid.Pick(2000, 150000)), func(rt *rapid.T) stormCase {
 		c := c04Gen(rt)
 		labels, nreq, _, _, _ := stormClassify(&c)
 		nontrivial := false
